@@ -54,6 +54,12 @@ def canonical_fields(rng, quick):
     out.append(("typedef-underscore", "default", dict(T("string"), gotype="My_Str", ann="My_Str")))
     out.append(("enum-underscore", "default", dict(T("enum"), gotype="My_Enum", ann="My_Enum")))
     out.append(("list-enum-underscore", "default", L(dict(T("enum"), gotype="My_Enum", ann="My_Enum"))))
+    # Go's int kind: a named int under its own name is an enum, plain int (or a named int under the keyword) an i64
+    out.append(("enum-int-kind", "default", dict(T("enum"), gotype="EnumI", ann="EnumI")))
+    out.append(("list-enum-int-kind", "default", L(dict(T("enum"), gotype="EnumI", ann="EnumI"))))
+    out.append(("map-enum-int-kind", "default", M(dict(T("enum"), gotype="EnumI", ann="EnumI"), T("string"))))
+    out.append(("plain-int", "default", dict(T("i64"), gotype="int", ann="i64")))
+    out.append(("typedef-int-kw", "default", dict(T("i64"), gotype="MyInt", ann="i64")))
     # a struct type reachable through a set only; double keys
     out.append(("set-pstruct-only", "default", SET(ST("LeafSetOnly", True))))
     out.append(("map-double-string", "default", M(T("double"), T("string"))))
@@ -105,7 +111,7 @@ def annot_variants(t, rng):
         out.append(("qualified-sp", base.replace("Leaf", "base . Leaf")))
     if "Leaf_u" in base:
         out.append(("qualified-underscore", base.replace("Leaf_u", "my_pkg.Leaf_u")))
-    for nm in ("Enum", "MyI64", "MyI32", "MyStr", "MyBool", "MyF64", "MyI8", "My_Str", "My_Enum"):
+    for nm in ("Enum", "MyI64", "MyI32", "MyStr", "MyBool", "MyF64", "MyI8", "My_Str", "My_Enum", "EnumI"):
         # package-qualified enum / typedef names
         import re
         if re.search(r"\b%s\b" % nm, base):
